@@ -278,6 +278,9 @@ def run_config(ctx, rep, cfg):
                     a = loc.addr
                     if a.root[0] in ("heap", "heapi") and len(a.segs) == 1 and a.segs[0].off == off_off:
                         val = t
+                    # the same store written through obj->ctx (the context was attached to the object first)
+                    if a.root == ("arg", h) and len(a.segs) == 2 and a.segs[0].off == b.ctx_off and a.segs[1].off == off_off:
+                        val = t
                 if val == ("c", b.batch):
                     rep.ok("C05.R2", cons, fsite(g), "fresh context starts exhausted: offset := %d" % b.batch, cfg=cn)
                 else:
